@@ -494,7 +494,7 @@ func replayCex(id, tier string, c *gosym.Cex, h *gosym.Harness, srcs []srcFile) 
 	os.WriteFile(filepath.Join(dir, "replay_test.go"), []byte(test), 0o644)
 	repl[filepath.Join(rel, "zz_verif_replay_test.go")] = filepath.Join(dir, "replay_test.go")
 	// overlay.json uses REPO placeholders resolved at replay time
-	ob, _ := json.MarshalIndent(map[string]interface{}{"pkg": "./" + rel, "replace": repl}, "", " ")
+	ob, _ := json.MarshalIndent(map[string]interface{}{"pkg": h.PkgPath, "replace": repl}, "", " ")
 	os.WriteFile(filepath.Join(dir, "overlay.tmpl.json"), ob, 0o644)
 	ok, detail := runReplay(dir)
 	return dir, ok, detail
@@ -525,11 +525,22 @@ func runReplay(dir string) (bool, string) {
 	tmp.Write(ob)
 	tmp.Close()
 	defer os.Remove(tmp.Name())
-	timeout := "30s"
-	cmd := exec.Command("go", "test", "-vet=off", "-count=1", "-overlay", tmp.Name(), "-run", "^TestZZReplay$", "-timeout", timeout, tm.Pkg)
-	cmd.Dir = repoDir
-	cmd.Env = append(os.Environ(), "GOFLAGS=-mod=mod", "GOPROXY=off", "GOSUMDB=off", "GOTOOLCHAIN=local", "ZZVERIF_TAPE="+filepath.Join(dir, "vector.json"))
-	out, _ := cmd.CombinedOutput()
+	bin, _ := os.CreateTemp("", "verif-replay-*.test")
+	bin.Close()
+	defer os.Remove(bin.Name())
+	env := append(os.Environ(), "GOFLAGS=-mod=mod", "GOPROXY=off", "GOSUMDB=off", "GOTOOLCHAIN=local", "ZZVERIF_TAPE="+filepath.Join(dir, "vector.json"))
+	build := exec.Command("go", "test", "-c", "-vet=off", "-overlay", tmp.Name(), "-o", bin.Name(), tm.Pkg)
+	build.Dir = repoDir
+	build.Env = env
+	out, err := build.CombinedOutput()
+	if err != nil {
+		os.WriteFile(filepath.Join(dir, "replay.log"), out, 0o644)
+		return false, "native build failed: " + firstLine("", string(out))
+	}
+	cmd := exec.Command(bin.Name(), "-test.run", "^TestZZReplay$", "-test.timeout", "40s", "-test.v")
+	cmd.Dir = dir
+	cmd.Env = env
+	out, _ = cmd.CombinedOutput()
 	so := string(out)
 	os.WriteFile(filepath.Join(dir, "replay.log"), out, 0o644)
 	kind, label := vf.Expect["kind"], vf.Expect["label"]
